@@ -102,4 +102,9 @@ def run(ctx, chk):
     # reads of source_size only feed claim_bytes (prefix monotonicity, used by C09/C14)
     chk.count("paths", len(outs))
     chk.count("transitive callees", len(callees))
+    # the argument delivered for a half-precision head (0xF9): the value the two bytes denote
+    chk.rule("C08.half-classes", "the float2 callback's argument: every one of the 65536 two-byte patterns reaches the action of its IEEE-754 "
+                                 "class in the half decoder (infinity / NaN / scaled value, negated iff the sign bit is set); shared with C15")
+    from props.c15 import check_half_classes
+    check_half_classes(chk, prog, eff, prefix="C08")
     chk.exhaustive = True
